@@ -337,6 +337,258 @@ func C11(c *fw.Ctx) {
 			c.Sample(map[string]interface{}{"sequence": labels, "document": doc, "reference": v.Class, "at_token": v.ErrAt, "observed": res.Err.Msg, "line": res.Err.Line})
 		}
 	})
+	c11MultiFile(c, al)
 	c.Extra("attachment_triples_seen", triples.len())
 	c.Finish()
+}
+
+type mfItem struct {
+	tok   int // index into the sequence, or -1
+	child *mfFile
+}
+
+type mfFile struct {
+	id    int
+	name  string
+	items []mfItem
+}
+
+type mfTokPos struct {
+	file            string
+	kwLine, parLine int
+	begin           int
+}
+
+// c11MultiFile: seeded sequences spread over nested INCLUDE files; the reference additionally demands that an explicit
+// context is closed in the file that opened it.
+func c11MultiFile(c *fw.Ctx, al []ctxTokenR) {
+	var forms []ctxTokenR
+	for _, t := range al {
+		if t.close || (t.form.name != "INCLUDE" && t.form.name != "JSIGHT") { // JSIGHT is forbidden in included files by another rule
+			forms = append(forms, t)
+		}
+	}
+	n := c.Pick(15000, 300000)
+	pool := c.Pool(false, 0)
+	type mfCase struct {
+		seq    []ctxTokenR
+		events []ref.CtxEvent
+		pos    []mfTokPos // per sequence token
+		evTok  []int      // event -> sequence token (or -1)
+		evFile []string   // event -> file name (for EndFile events: the file that ends)
+		files  map[string][]byte
+	}
+	cases := map[string]*mfCase{}
+	c.RunJobs(pool, func(emit func(*proto.Job)) {
+		r := gen.Rng(c.Seed, c.ID, "multifile")
+		for i := 0; i < n; i++ {
+			l := 3 + r.Intn(7)
+			var seq []ctxTokenR
+			var toks []ref.CtxToken
+			for k := 0; k < l; k++ {
+				x := r.Intn(len(forms))
+				if r.Intn(5) != 0 {
+					for try := 0; try < 40; try++ {
+						y := r.Intn(len(forms))
+						v := ref.RunContext(append(append([]ref.CtxToken(nil), toks...), forms[y].tok()))
+						if v.OK || v.Class == "not-closed" {
+							x = y
+							break
+						}
+					}
+				}
+				seq = append(seq, forms[x])
+				toks = append(toks, forms[x].tok())
+			}
+			// structure
+			nfile := 0
+			var split func(lo, hi, level int) *mfFile
+			split = func(lo, hi, level int) *mfFile {
+				f := &mfFile{id: nfile, name: fmt.Sprintf("f%d.jst", nfile)}
+				if nfile == 0 {
+					f.name = "root.jst"
+				}
+				nfile++
+				for i := lo; i < hi; {
+					if level < 3 && r.Intn(3) == 0 && !(level == 0 && i == lo && false) {
+						j := i + 1 + r.Intn(hi-i)
+						if j > hi {
+							j = hi
+						}
+						if !(level == 0 && i == lo && j == hi && false) {
+							f.items = append(f.items, mfItem{tok: -1, child: split(i, j, level+1)})
+							i = j
+							continue
+						}
+					}
+					f.items = append(f.items, mfItem{tok: i})
+					i++
+				}
+				if r.Intn(6) == 0 && level < 3 { // an included file without any directive
+					f.items = append(f.items, mfItem{tok: -1, child: &mfFile{id: nfile, name: fmt.Sprintf("f%d.jst", nfile)}})
+					nfile++
+				}
+				return f
+			}
+			root := split(0, l, 0)
+			mc := &mfCase{seq: seq, pos: make([]mfTokPos, l), files: map[string][]byte{}}
+			var render func(f *mfFile)
+			render = func(f *mfFile) {
+				var sb strings.Builder
+				line := 1
+				for _, it := range f.items {
+					if it.child != nil {
+						sb.WriteString("INCLUDE " + it.child.name + "\n")
+						line++
+						render(it.child)
+						mc.events = append(mc.events, ref.CtxEvent{File: it.child.id, EndFile: true})
+						mc.evTok = append(mc.evTok, -1)
+						mc.evFile = append(mc.evFile, it.child.name)
+						continue
+					}
+					t := seq[it.tok]
+					p := mfTokPos{file: f.name, kwLine: line, begin: sb.Len()}
+					if t.close {
+						sb.WriteString(")\n")
+						line++
+					} else {
+						sb.WriteString(t.form.head + "\n")
+						line++
+						if t.explicit {
+							p.parLine = line
+							sb.WriteString("(\n")
+							line++
+						}
+						if t.form.body != "" {
+							sb.WriteString(t.form.body + "\n")
+							line += 1 + strings.Count(t.form.body, "\n")
+						}
+					}
+					mc.pos[it.tok] = p
+					mc.events = append(mc.events, ref.CtxEvent{Tok: t.tok(), File: f.id})
+					mc.evTok = append(mc.evTok, it.tok)
+					mc.evFile = append(mc.evFile, f.name)
+				}
+				mc.files[f.name] = []byte(sb.String())
+			}
+			render(root)
+			if len(mc.files) < 2 {
+				continue
+			}
+			id := fmt.Sprintf("mf/%d", i)
+			maxMuLock.Lock()
+			cases[id] = mc
+			maxMuLock.Unlock()
+			emit(&proto.Job{ID: id, Root: "root.jst", Files: mc.files, WantPhases: true})
+		}
+	}, func(j *proto.Job, res *proto.Result) {
+		if workerProblem(c, res) {
+			return
+		}
+		maxMuLock.Lock()
+		mc := cases[j.ID]
+		delete(cases, j.ID)
+		maxMuLock.Unlock()
+		var labels []string
+		for _, t := range mc.seq {
+			labels = append(labels, t.label())
+		}
+		key := strings.Join(labels, " ")
+		c.Count(jobKey(j), true)
+		v := ref.RunContextFiles(mc.events)
+		rp := &fw.Replay{Jobs: []*proto.Job{j}, Results: []interface{}{res}, Expected: map[string]interface{}{"sequence": labels, "reference": v, "files": filesAsStrings(j.Files)}}
+		if sig, what := crashSig(res); sig != "" {
+			c.Violate(sig, "sequence ["+key+"] over files: "+what, rp)
+			return
+		}
+		if !res.ScanDone && res.Err == nil {
+			c.Inconclusive("no error and no scan-phase snapshot")
+			return
+		}
+		class := ""
+		if res.Err != nil && !res.ScanDone {
+			class = ctxErrClass(res.Err.Msg)
+		}
+		if v.OK {
+			c.Inc("multi_file", "reference-accepts", 1)
+			if !res.ScanDone {
+				c.Violate("files:rejected-legal-sequence:"+class, fmt.Sprintf("sequence [%s] spread over %d files is legal but the scan phase says %q at %s:%d", key, len(j.Files), res.Err.Msg, relName(res, res.Err.File), res.Err.Line), rp)
+				return
+			}
+			var flat []flatNodeF
+			flattenF(res.Scan, res, &flat)
+			if len(flat) != len(v.Nodes) {
+				c.Violate("files:tree-size", fmt.Sprintf("sequence [%s] over files: %d directives expected, %d found", key, len(v.Nodes), len(flat)), rp)
+				return
+			}
+			// node identity = (file, keyword offset)
+			idx := map[string]int{}
+			for n, ei := range v.Nodes {
+				p := mc.pos[mc.evTok[ei]]
+				idx[fmt.Sprintf("%s:%d", p.file, p.begin)] = n
+			}
+			for _, f := range flat {
+				n, ok := idx[fmt.Sprintf("%s:%d", f.file, f.begin)]
+				if !ok {
+					c.Violate("files:unknown-node", fmt.Sprintf("sequence [%s] over files: the tree holds a directive at %s:%d that was not written", key, f.file, f.begin), rp)
+					return
+				}
+				want := v.Parents[n]
+				got := -1
+				if f.parentFile != "" {
+					g, ok := idx[fmt.Sprintf("%s:%d", f.parentFile, f.parentBegin)]
+					if !ok {
+						got = -2
+					} else {
+						got = g
+					}
+				}
+				if got != want {
+					c.Violate("files:wrong-parent", fmt.Sprintf("sequence [%s] over files: directive %d (%s) should hang under node %d, implementation has it under %d", key, n, f.kind, want, got), rp)
+					return
+				}
+			}
+			return
+		}
+		c.Inc("multi_file", "reference-rejects:"+v.Class, 1)
+		if res.ScanDone || res.Err == nil {
+			c.Violate("files:accepted-illegal-sequence:"+v.Class, fmt.Sprintf("sequence [%s] spread over files must be rejected (%s at event %d) but passed the scan phase", key, v.Class, v.ErrAt), rp)
+			return
+		}
+		if class != v.Class {
+			c.Violate("files:wrong-class:"+v.Class, fmt.Sprintf("sequence [%s] over files: expected %s, got %q at %s:%d", key, v.Class, res.Err.Msg, relName(res, res.Err.File), res.Err.Line), rp)
+			return
+		}
+		if v.Class != "not-closed" && v.ErrAt < len(mc.events) {
+			p := mc.pos[mc.evTok[v.ErrAt]]
+			if relName(res, res.Err.File) != p.file || res.Err.Line != p.kwLine {
+				c.Violate("files:error-location", fmt.Sprintf("sequence [%s] over files: the offending token is at %s:%d, the error says %s:%d", key, p.file, p.kwLine, relName(res, res.Err.File), res.Err.Line), rp)
+			}
+		}
+		if v.Class == "not-closed" && v.ErrAt < len(mc.events) {
+			// the file that ends with its parenthesis open
+			if relName(res, res.Err.File) != mc.evFile[v.ErrAt] {
+				c.Violate("files:not-closed-file", fmt.Sprintf("sequence [%s] over files: %s ends with an open parenthesis, the error names %s", key, mc.evFile[v.ErrAt], relName(res, res.Err.File)), rp)
+			}
+		}
+		if c.NeedSample() && v.Class == "not-closed" && v.ErrAt < len(mc.events) {
+			c.Sample(map[string]interface{}{"sequence": labels, "files": filesAsStrings(j.Files), "reference": "not-closed at the end of " + mc.evFile[v.ErrAt], "observed": res.Err.Msg})
+		}
+	})
+}
+
+type flatNodeF struct {
+	kind, file, parentFile string
+	begin, parentBegin     int
+}
+
+func flattenF(nodes []*proto.Node, res *proto.Result, out *[]flatNodeF) {
+	for _, n := range nodes {
+		f := flatNodeF{kind: n.Kind, file: relName(res, n.File), begin: n.Begin}
+		if !n.ParentIsNil {
+			f.parentFile, f.parentBegin = relName(res, n.ParentFile), n.ParentBegin
+		}
+		*out = append(*out, f)
+		flattenF(n.Children, res, out)
+	}
 }
